@@ -1,2 +1,2 @@
-/* fid: cond-nonscalar-abort (fixed 8620260); msg: first operand of conditional operator must have scalar type */
+/* fid: cond-nonscalar-abort (fixed 98b06a1); msg: first operand of conditional operator must have scalar type */
 struct S {int a;} s; int f(void){ return s ? 1 : 2; }
